@@ -1,7 +1,7 @@
 (* C14 — COSE_Key conversion round-trips every key and keeps coordinates full length.
    Statements only (copied from coq/theories by bin/mkprops); each proof is `exact <lemma>`. *)
 From Coq Require Import Ascii String ZArith List Bool Permutation.
-From GoCose Require Import Bytes Cbor CborProofs Res GoVal Obs Ecdsa EcdsaProofs Fx Headers Enc Dec Msg HashEnv Key SigVer Run TbsProofs FlowProofs DecProofs KeyProofs HdrProofs EncProofs EncCanon NoPanic Effects MoreProofs.
+From GoCose Require Import Bytes Cbor CborProofs Res GoVal Obs Ecdsa EcdsaProofs Fx Headers Enc Dec Msg HashEnv Key SigVer Run TbsProofs FlowProofs DecProofs KeyProofs HdrProofs EncProofs EncCanon NoPanic Effects MoreProofs KeyCbor.
 From GoCose.Gen Require Import Generated.
 Import ListNotations.
 Open Scope Z_scope.
@@ -34,3 +34,69 @@ Theorem C14_field_sizes :
                       field_size 256 = 32 /\ field_size 384 = 48 /\ field_size 521 = 66.
 Proof. exact field_sizes. Qed.
 Print Assumptions C14_field_sizes.
+
+(* the whole conversion through the wire, public half: Go key -> COSE_Key -> MarshalCBOR -> UnmarshalCBOR -> Go key is the identity for every point, and x, y travel as byte strings of exactly the field size *)
+Theorem C14_go_public_key_cbor_roundtrip :
+  forall crv alg bits x y,
+  curve_triple crv alg bits ->
+  0 <= x < 256 ^ field_size bits -> 0 <= y < 256 ^ field_size bits ->
+  exists k cx cy,
+    new_key_from_public (PubEC bits x y) = Acc k /\
+    key_marshal k = Acc (ser (ec2_wire crv alg cx cy None)) /\      
+    len cx = field_size bits /\ len cy = field_size bits /\        
+    be_dec cx = x /\ be_dec cy = y /\
+    key_unmarshal (ser (ec2_wire crv alg cx cy None)) = Acc k /\   
+    key_public k = Acc (PubEC bits x y).
+Proof. exact go_public_key_cbor_roundtrip. Qed.
+Print Assumptions C14_go_public_key_cbor_roundtrip.
+
+(* the same with private material, every scalar 0 < d < 2^(8 size) *)
+Theorem C14_go_private_key_cbor_roundtrip :
+  forall crv alg bits x y d,
+  curve_triple crv alg bits ->
+  0 <= x < 256 ^ field_size bits -> 0 <= y < 256 ^ field_size bits -> 0 < d < 256 ^ field_size bits ->
+  exists k cx cy dd,
+    new_key_from_private (PrivEC bits x y d) = Acc k /\
+    key_marshal k = Acc (ser (ec2_wire crv alg cx cy (Some dd))) /\
+    len cx = field_size bits /\ len cy = field_size bits /\
+    key_unmarshal (ser (ec2_wire crv alg cx cy (Some dd))) = Acc k /\
+    key_private k = Acc (PrivEC bits x y d).
+Proof. exact go_private_key_cbor_roundtrip. Qed.
+Print Assumptions C14_go_private_key_cbor_roundtrip.
+
+(* Ed25519 keys *)
+Theorem C14_go_ed25519_key_cbor_roundtrip :
+  forall sk,
+  length sk = 64%nat -> bytes_ok sk = true ->
+  exists k,
+    new_key_from_private (PrivEd sk) = Acc k /\
+    key_marshal k = Acc (ser (okp_wire (Some (skipn 32 sk)) (Some (firstn 32 sk)))) /\
+    key_unmarshal (ser (okp_wire (Some (skipn 32 sk)) (Some (firstn 32 sk)))) = Acc k /\
+    key_private k = Acc (PrivEd sk) /\ key_public k = Acc (PubEd (skipn 32 sk)).
+Proof. exact go_ed25519_key_cbor_roundtrip. Qed.
+Print Assumptions C14_go_ed25519_key_cbor_roundtrip.
+
+(* MarshalCBOR of an EC2 key: the exact bytes, a deterministic map *)
+Theorem C14_ec2_key_marshal :
+  forall crv alg bits cx cy od,
+  curve_triple crv alg bits -> len cx = field_size bits -> len cy = field_size bits ->
+  key_marshal (ec2_key crv alg cx cy od) = Acc (ser (ec2_wire crv alg cx cy od)).
+Proof. exact ec2_key_marshal. Qed.
+Print Assumptions C14_ec2_key_marshal.
+
+(* UnmarshalCBOR of those bytes: the same key *)
+Theorem C14_ec2_key_unmarshal :
+  forall crv alg bits cx cy od,
+  curve_triple crv alg bits -> len cx = field_size bits -> len cy = field_size bits ->
+  short cx -> short cy -> short_opt od ->
+  match od with Some d => len d <= field_size bits | None => True end ->
+  key_unmarshal (ser (ec2_wire crv alg cx cy od)) = Acc (ec2_key crv alg cx cy od).
+Proof. exact ec2_key_unmarshal. Qed.
+Print Assumptions C14_ec2_key_unmarshal.
+
+Theorem C14_key_cbor_example :
+  new_key_from_public (PubEC 256 1 2) = Acc (ec2_key 1 (-7) (repeat 0 31 ++ [1]) (repeat 0 31 ++ [2]) None) /\
+  key_marshal (ec2_key 1 (-7) (repeat 0 31 ++ [1]) (repeat 0 31 ++ [2]) None) =
+    Acc (x "a5010203262001215820" ++ repeat 0 31 ++ [1] ++ x "225820" ++ repeat 0 31 ++ [2]).
+Proof. exact key_cbor_example. Qed.
+Print Assumptions C14_key_cbor_example.
